@@ -180,8 +180,10 @@ def worker(args, scratch):
             race = h % 4 == 3   # production-shaped overlap: the last readiness report arrives while the key keeper runs the deadline handler
             gate = threading.Barrier(2)
 
+            late = h % 4 == 1   # the key latch is reported and reset again BEFORE the last subsystem reports (a reset while nothing is finished yet)
+
             def redirector():
-                if race:
+                if race or late:
                     gate.wait(5)
                 else:
                     time.sleep(r.random() * 0.004)
@@ -192,6 +194,13 @@ def worker(args, scratch):
                     do("key_latched")
                     gate.wait(5)
                     do("timeup", dir=None)
+                    return
+                if late:
+                    do("key_latched")
+                    if r.random() < 0.5:
+                        do("key_latched")
+                    do("reset")
+                    gate.wait(5)
                     return
                 for _ in range(r.randrange(1, 5)):
                     time.sleep(r.random() * 0.003)
@@ -241,6 +250,23 @@ def worker(args, scratch):
                 fin = int(final["finished_time_tick"]) != 0
                 if fin != (final["flags"] == ALL):
                     res["violations"].append(["quiescent-finished-flag-disagrees-with-readiness", {"final": final, "ops": [(o["what"], o["t0"], o["t1"]) for o in history if o["what"] not in ("query", "http")]}])
+            # race-shaped cycles: a key-latch report (the LAST readiness report: it completes ALL_READY) started together with a
+            # key-latch reset, delay points on. Whatever order the two linearize in, at quiescence finished <=> all ready.
+            if h % 4 == 2 and not had_deadline and not res["violations"]:
+                for cyc in range(args.get("race_cycles", 20)):
+                    pair = [threading.Thread(target=lambda: sh.call("prov", what="key_latched")), threading.Thread(target=lambda: sh.call("prov", what="reset"))]
+                    if cyc % 2:
+                        pair.reverse()
+                    for t in pair: t.start()
+                    for t in pair: t.join()
+                    fl = sh.call("prov", what="flags")["result"]
+                    cnt["reset_vs_last_ready_report_race_cycles"] = cnt.get("reset_vs_last_ready_report_race_cycles", 0) + 1
+                    key = "race_cycle_outcome:%s" % ("all-ready" if fl["flags"] == ALL else "not-ready")
+                    cnt[key] = cnt.get(key, 0) + 1
+                    if (int(fl["finished_time_tick"]) != 0) != (fl["flags"] == ALL):
+                        res["violations"].append(["quiescent-finished-flag-disagrees-with-readiness", {"final": fl, "cycle": cyc, "ops": "key_latched || reset (started together, delay points on)"}])
+                        break
+                res["evaluations"] += 1
             # tag file: only complete messages, only replaced by rename
             valid_msgs = set(msgs.values())
             for data in set(tag_reads):
